@@ -763,16 +763,28 @@ func (r *pipeReader) Read(p []byte) (int, error) {
 }
 
 type pipeWriter struct {
-	got []byte
+	got       []byte
+	failAfter int // > 0: the writer fails at its failAfter+1st call (the peer went away)
+	calls     int
+	full      func() bool // the ring has no room for another read block (ReadFrom is blocked for space)
 }
 
 func (w *pipeWriter) Write(p []byte) (int, error) {
+	w.calls++
+	if w.failAfter > 0 && w.calls > w.failAfter {
+		// fail only once the reader side is blocked for space, so that Close has somebody to wake
+		for dl := time.Now().Add(300 * time.Millisecond); !w.full() && time.Now().Before(dl); {
+			time.Sleep(50 * time.Microsecond)
+		}
+		time.Sleep(200 * time.Microsecond)
+		return 0, io.ErrClosedPipe
+	}
 	w.got = append(w.got, p...)
 	return len(p), nil
 }
 
 // free-running ReadFrom / WriteTo on a fresh ring (no scheduler)
-func ringPipe(total int64, chunk int) string {
+func ringPipe(total int64, chunk int, failAfter int) string {
 	b, err := service.VerifNewBuffer(16384)
 	if err != nil {
 		panic(err)
@@ -782,7 +794,8 @@ func ringPipe(total int64, chunk int) string {
 		err error
 	}
 	rf, wt := make(chan rr, 1), make(chan rr, 1)
-	w := &pipeWriter{}
+	w := &pipeWriter{failAfter: failAfter}
+	w.full = func() bool { return int64(b.Len()) > b.VerifSize()-8192 }
 	go func() { n, err := b.ReadFrom(&pipeReader{total: total, chunk: chunk}); rf <- rr{n, err} }()
 	go func() { n, err := b.WriteTo(w); wt <- rr{n, err} }()
 	var a, c rr
@@ -800,6 +813,11 @@ func ringPipe(total int64, chunk int) string {
 		if w.got[j] != ringSrc(int64(j)) {
 			pre = false
 		}
+	}
+	if failAfter > 0 {
+		// the writer failed: WriteTo closes the ring, ReadFrom (possibly blocked for space) must return too;
+		// which of its exits it takes depends on the interleaving
+		return fmt.Sprintf("pipe done pre=%s", boolStr(pre))
 	}
 	return fmt.Sprintf("pipe rf=%d:%s wt=%s pre=%s", a.n, errClass(a.err), errClass(c.err), boolStr(pre))
 }
@@ -882,13 +900,18 @@ func (c *ringCore) handle(ws []string) string {
 		s := ep.finish()
 		ep.over = true
 		return s
-	case len(ws) == 3 && ws[0] == "pipe":
+	case (len(ws) == 3 || len(ws) == 4) && ws[0] == "pipe":
 		total, e1 := strconv.ParseInt(ws[1], 10, 64)
 		chunk, e2 := strconv.Atoi(ws[2])
-		if e1 != nil || e2 != nil || total < 0 || chunk <= 0 {
+		fail := 0
+		var e3 error
+		if len(ws) == 4 {
+			fail, e3 = strconv.Atoi(ws[3])
+		}
+		if e1 != nil || e2 != nil || e3 != nil || total < 0 || chunk <= 0 || fail < 0 {
 			return "bad-op"
 		}
-		return ringPipe(total, chunk)
+		return ringPipe(total, chunk, fail)
 	}
 	return "bad-op"
 }
@@ -1348,6 +1371,9 @@ func genRingSoak(seed int64, n int, tier string, w *bufio.Writer) {
 		}
 		if r.Intn(4) == 0 {
 			g.emit("pipe %d %d", 1+r.Intn(200000), 1+r.Intn(9000))
+		}
+		if r.Intn(6) == 0 { // the peer goes away while the reader side is blocked for space (DESIGN 9.F2)
+			g.emit("pipe %d %d %d", 40000+r.Intn(100000), 1+r.Intn(9000), 1+r.Intn(3))
 		}
 	}
 }
